@@ -14,6 +14,51 @@ BASE_OFF = ("cd /repo && /venv/bin/python -m pytest -ra -q -p no:cacheprovider -
 
 # id -> (level category, technique, level text, level note, design ref)
 CHECKS = {
+    'C11': ('exploration',
+            'runtime contract monitor on InputStore reads with harness-side ground truth and an independent acceptance model (icontract postconditions on Input.value)',
+            'Every read of an input made by the workload is judged against the presence and raw text the harness reads directly from the ConfigParser: '
+            'a value requires the key to be present, the input\'s own validator to accept the text, the declared Python type, a finite number, and equality with '
+            'an independent model of the type; MissingInput requires absence; InvalidInput requires invalid text. Workload: adversarial strings per input type '
+            '(whitespace, case, signs, exponents, nan/inf, underscores, unicode digits, near-miss enumeration names; 3000 per type quick, 100000 thorough), by file and '
+            'by prompt, the CLI prompt loop with invalid-then-valid answers, every shipped input with type corpora, and every input read of explored real returns.',
+            "Numeric text is valid iff Python int()/float() accepts it and it is finite; '%' is outside the alphabet (C14).",
+            'DESIGN.md section 4, C11'),
+    'C14': ('exploration',
+            'write/read-back monitor: typed values observed on the PDF filler\'s store while fill-pdfs loads the written solution, compared with the values the solve stored',
+            'For every solved explored return (all years) the solution is written exactly as the CLI writes it and read back by `habutax fill-pdfs` (stand-in pdftk); '
+            'every value loaded must equal the value solved (numbers/booleans exactly, enumerations by member, text up to surrounding whitespace). A closed list of value '
+            'classes for every line type and decimal-place setting goes through the same path. The real CLI is run per year to check the file carries its tax year and '
+            'only that year\'s templates are used.',
+            'Known findings: ConfigParser interpolation of % and comment-like continuation lines (listed in known_findings.json).',
+            'DESIGN.md section 4, C14'),
+    'C17': ('exploration',
+            'exhaustive live inspection of every catalogued form instance, every (threshold table, status) lookup through Form.threshold, and CLI listings parsed back',
+            'Every (year, class, allowed instance) is instantiated; tax year, unique name, metadata, duplicate-free lower-case dot-free input and line names are asserted on the '
+            'live object; every status-keyed threshold table is looked up through the real Form.threshold for each of the five statuses and must have exactly one matching entry; '
+            '`list-forms` (with filters) and `list-form-inputs` for every form and instance are run in-process and the template is parsed back with ConfigParser.',
+            'Exhaustive over the catalogue as shipped; thresholds are captured from the argument each form passes to Form.__init__.',
+            'DESIGN.md section 4, C17'),
+    'C18': ('exploration',
+            'join of every mapping (live PDFField objects and FDF entries captured at a stand-in pdftk) with the field tree parsed from the bundled templates',
+            'All 1665 mappings: the target exists in the template, kinds agree, check-box export values for every value of the driving line are template export values, '
+            'length limits agree, no field is mapped twice, exclusive groups have at most one box on for every value of the driving line, every fileable form has a template '
+            'and mappings, every mapped line exists, and where the template\'s accessibility text (or NC field-name suffix) carries a line label in reading order the mapped line is that line.',
+            'Trusts hv/pdfspec.py and a three-entry alias table; labels out of the template\'s own reading order are ignored and counted.',
+            'DESIGN.md section 4, C18'),
+    'C19': ('exploration',
+            'FDF tokenizer and argv log at a stand-in pdftk placed first on PATH, against an independent filing table',
+            'Every solved explored return is filled through PDFFiller; the captured FDF is tokenised under PDF string syntax and must decode to exactly the mapped text of every field; '
+            'the filled forms must be exactly those needing filing (never worksheets or input forms), once each, concatenated by jurisdiction and the attachment sequence printed in the '
+            'templates; adversarial printable-ASCII text is injected through every string input; over-long values and a failing pdftk must stop the fill.',
+            'Expected text of a box is the mapping applied to the value the filler loaded.',
+            'DESIGN.md section 4, C19'),
+    'C20': ('fault_enumeration',
+            'fault injection into the real CLI session at every prompt index, followed by a file-state checker and a re-run',
+            'For each explored interactive session (persona x initial file) and EVERY prompt index k: Ctrl-C at the prompt, end of input at the prompt, invalid answer then Ctrl-C; '
+            'plus a line definition raising at sampled evaluation indices and an unsupported form being reached. After each faulted `solve --prompt-missing --writeback-input` the file '
+            'must parse, hold every value it held before and every answer given before the fault, and the re-run must not ask for any of them again.',
+            'In-process CLI with builtins.input replaced; the answer being typed at the fault point is not required to persist.',
+            'DESIGN.md section 4, C20'),
     'C01': ('exploration',
             'offline trace checker (verdict vs recorded unimplemented/missing/blocked events) + executable reference model of generated form programs',
             'Every solve of the workload runs under boundary wrappers; the oracle recomputes from the event log the set of lines that signalled '
